@@ -125,6 +125,7 @@ class Ctx:
         """Re-check the property theorems: build the dependencies, then compile Props/<pid>.v afresh and read
         its Print Assumptions output.  Returns True when every theorem compiled."""
         import glob as _glob
+        _t_props = time.time()
         main = "theories/Props/%s.v" % self.pid
         # part files Props/<pid>_<part>.v hold further theorems of the same property (one owner per file)
         parts = sorted("theories/Props/" + os.path.basename(f)
@@ -143,14 +144,22 @@ class Ctx:
         outdir = os.path.join(BUILD, "props")
         os.makedirs(outdir, exist_ok=True)
         out = ""
-        for props in files:
+        # the theorem files are independent of each other: re-check them in parallel (plain coqc subprocesses)
+        from concurrent.futures import ThreadPoolExecutor
+
+        def _one(props):
             src = os.path.join(COQ, props)
             cmd = ["coqc"] + COQ_FLAGS + ["-o", os.path.join(outdir, os.path.basename(props) + "o"), src]
-            rc, o = sh(cmd, timeout=600)
+            return sh(cmd, timeout=900)
+
+        with ThreadPoolExecutor(max_workers=min(6, len(files))) as ex:
+            results = list(ex.map(_one, files))
+        for rc, o in results:
             out += o
             if rc != 0:
                 self.proof_info["log"] = o[-3000:]
                 return False
+        self.proof_info["seconds_check_props"] = round(time.time() - _t_props, 1)
         self.proof_info["checker_cmd"] = "make -C coq <Props files>.vo && coqc -Q coq/theories UPV coq/%s  (Print Assumptions parsed)" % " coq/".join(files)
         closed = out.count("Closed under the global context")
         axioms = sorted(set(re.findall(r"^([A-Za-z_][A-Za-z0-9_.']*)\s*:", out, re.M)) - {"Axioms"})
@@ -291,6 +300,8 @@ class Ctx:
             tb.append("Print Assumptions: every property theorem closed under the global context (no axioms)")
         cov.setdefault("trusted_base", tb + list(cov.pop("trusted_extra", [])))
         cov["theorems"] = pi.get("theorems", [])
+        if "seconds_check_props" in pi:
+            cov["seconds_check_props"] = pi["seconds_check_props"]
         cov["known_findings_hit"] = {k: v[1] for k, v in hits.items()}
         cov["failures_total"] = len(self.failures)
         ev = {
